@@ -267,6 +267,18 @@ func (c *checker) run(sc *seqCase) {
 				stored[r.sub.id] = millis(now)
 			}
 		}
+		// sign-prefixed numbers are don't-care between "malformed" and "the unsigned number"
+		orig := r
+		if r.alt != nil && f == nil {
+			refused := !pan && rsp.Status/100 == 4 && len(cl) == 0 && st.Calls() == st0 && len(iss1) == len(iss0) && !carriesSCT(rsp.Body)
+			if refused {
+				d.Expected = "4xx without backend call, or the answer to the unsigned number"
+				c.r.Nontrivial(fmt.Sprintf("S|%d|%v|%s", sc.svc, sc.mask, orig))
+				descs = append(descs, d)
+				continue
+			}
+			r = r.alt
+		}
 		bad := func(oracle, what, desc string) {
 			all := append(append([]stepDesc{}, descs...), d)
 			for _, rest := range sc.steps[i+1:] {
@@ -276,7 +288,7 @@ func (c *checker) run(sc *seqCase) {
 				}
 				all = append(all, rd)
 			}
-			c.viol(oracle, what, r.ep, sc, i, fmt.Sprintf("[%s, mask=%v, step %d of %d] %s: %s", svcName[sc.svc], sc.mask, i+1, len(sc.steps), r, desc), all)
+			c.viol(oracle, what, r.ep, sc, i, fmt.Sprintf("[%s, mask=%v, step %d of %d] %s: %s", svcName[sc.svc], sc.mask, i+1, len(sc.steps), orig, desc), all)
 		}
 		reqLog := func(what string) {
 			if len(stat1) != len(stat0)+1 || stat1[len(stat1)-1] != rsp.Status {
@@ -374,7 +386,7 @@ func (c *checker) run(sc *seqCase) {
 			}
 			reqLog(neighbour)
 			if sc.phase != "matrix" {
-				c.r.Nontrivial("H|" + epName[r.ep] + "|" + r.String())
+				c.r.Nontrivial("H|" + epName[r.ep] + "|" + orig.String())
 			}
 
 		case r.verdict == vBad || r.verdict == vCaller:
@@ -382,7 +394,7 @@ func (c *checker) run(sc *seqCase) {
 			if r.verdict == vBad {
 				d.Expected = "4xx, no backend call, no SCT"
 			}
-			c.r.Nontrivial(fmt.Sprintf("B|%d|%v|%s", sc.svc, sc.mask, r))
+			c.r.Nontrivial(fmt.Sprintf("B|%d|%v|%s", sc.svc, sc.mask, orig))
 			if pan {
 				bad("panic escapes ServeHTTP", r.what, "panic: "+msg+"\n"+trimStack(stack))
 				break
@@ -681,6 +693,7 @@ func TestCheck(t *testing.T) {
 		"'every other backend fault or malformed reply gives 5xx' is read as: 5xx other than 501 / 503 / 504, which the statement reserves for named causes",
 		"a sound tree head with an empty proof list on get-proof-by-hash may be 4xx or 5xx (unknown hash and backend fault are indistinguishable)",
 		"not judged (only no-panic): proof nodes of wrong size on get-entry-and-proof, a proof without nodes on the two proof-only endpoints, an echoed leaf of version 1, get-sth-consistency first=0 beyond the tree, get-entries 0..2^63-1",
+		"a sign-prefixed number (+1, +0, -0) is don't-care: whether it is a malformed decimal number is an interpretation (strconv.ParseInt's grammar is a defensible reading); accepted outcomes are 4xx without any backend call, or exactly the judged behaviour of the same request with the unsigned number (false alarm corrected: an earlier version demanded 4xx)",
 		"SCT timestamps: the reference backend echoes the stored leaf, so the SCT of a chain carries the time of its first stored submission; the clock advances 1 s per request",
 	)
 
